@@ -166,7 +166,7 @@ Print Assumptions collapse_below_min.
    with d pairs contributes with weight K / d, i.e. counts / d after division by K. *)
 Theorem o2m_ids : forall t a (yields : list (list (Tree * Z))) (raises : list bool) (strict : bool) (key : Tree)
                          (norm incl : bool) (mode : Z) (c : collapsed),
-  wf t -> collapse_t t a (OneToMany yields raises strict key) norm incl mode = ROk c ->
+  collapse_t t a (OneToMany yields raises strict key) norm incl mode = ROk c ->
   StronglySorted Z.lt (ids a (ctab c)) /\
   (forall g, In g (ids a (ctab c)) <-> exists p pw, In p yields /\ In (pw, g) p) /\
   ids (other a) (ctab c) = ids (other a) t /\
@@ -221,7 +221,7 @@ Print Assumptions o2m_divide_conserves.
 (* metadata of a group: {key: pathway} for one of the pathways yielded with that group *)
 Theorem o2m_md : forall t a (yields : list (list (Tree * Z))) (raises : list bool) (strict : bool) (key : Tree)
                         (norm incl : bool) (mode : Z) (c : collapsed),
-  wf t -> collapse_t t a (OneToMany yields raises strict key) norm incl mode = ROk c ->
+  collapse_t t a (OneToMany yields raises strict key) norm incl mode = ROk c ->
   forall g : Z, incl = true -> In g (ids a (ctab c)) ->
   exists pw p, md_of a (ctab c) g = Some (path_md key pw) /\ In p yields /\ In (pw, g) p.
 Proof. exact PartitionProofs.o2m_md. Qed.
